@@ -32,7 +32,7 @@ LEVEL_NOTE = ("Trusted: Coq kernel, translator constants, Go harness + Python gl
               "their members), os.File.ReadAt short-read semantics.")
 THEOREMS = ["no_panic_open_table", "no_panic_table", "no_panic_journal_scan", "no_panic_manifest", "oracle_model", "no_misread_get",
             "no_misread_refuted", "iterate_mislabel_refuted", "psearch_total", "no_panic_archive_has", "no_panic_archive_open",
-            "no_panic_archive_get", "no_panic_archive_iterate", "archive_misread_refuted", "archive_iterate_mislabel_refuted"]
+            "no_panic_archive_get", "no_panic_archive_get_many", "no_panic_archive_iterate", "archive_misread_refuted", "archive_iterate_mislabel_refuted"]
 REFUTED = ["no_misread_refuted", "iterate_mislabel_refuted", "archive_misread_refuted", "archive_iterate_mislabel_refuted"]
 RULE = ("files written by the real writers (table files of 1-6 chunks, journals of 2-7 records, v5/v4 manifests of 0-3 specs) with: every single-byte "
         "corruption of index+footer (thorough: 3 values per position; quick: one rotating value), sampled data-area flips, every/sampled truncation, "
@@ -47,7 +47,7 @@ REQUIRED_TAGS = ["table", "journal", "manifest", "t-pristine", "t-open-err", "t-
                  "t-absent", "t-misread", "j-ok", "j-err", "j-dataloss", "j-truncated", "m-ok", "m-err",
                  "reg:length-lt-checksum-size", "reg:ordinal-ge-count", "reg:length-gt-iterate-buffer", "reg:journal-short-field", "reg:manifest-bad-root", "reg:resolve-short-hash",
                  "archive", "a-open-ok", "a-open-err", "a-get-ok", "a-get-err", "a-misread", "a-iter-ok", "a-iter-err", "a-iter-bad",
-                 "reg:archive-chunk-ref", "reg:archive-span-length", "reg:archive-footer-counts", "a-ref-swap-clean", "t-extras",
+                 "reg:archive-chunk-ref", "reg:archive-span-length", "reg:archive-footer-counts", "a-gm-err", "a-gm-ok", "a-ref-swap-clean", "t-extras",
                  "store", "s-table-manifest", "s-table-table", "s-journal-journal", "s-journal-idx", "s-archive-archive", "s-open-ok", "s-open-err", "s-op-err", "s-all-ok",
                  "resolve", "r-short-ok", "r-long-ok", "r-short-err", "r-long-err", "r-found", "r-none", "r-last-tuple-long"]
 
@@ -55,7 +55,7 @@ REQUIRED_TAGS = ["table", "journal", "manifest", "t-pristine", "t-open-err", "t-
 # (table-index:length-lt-checksum-size, table-index:ordinal-ge-count, table-index:length-gt-iterate-buffer,
 #  journal-record:short-field-valid-crc, manifest:root-hash-malformed) are NOT matched any more: a panic is a violation.
 # repaired in e8df418 and no longer matched: archive-index:chunk-ref-unchecked, archive-index:span-length-unchecked, archive-footer:counts-unchecked
-KEY_A_GM = "archive-getmany:span-unchecked"      # planReads / fetchBatch still use the unchecked getByteSpanByID (errgroup goroutine)
+# repaired in 002bc81 and no longer matched: archive-getmany:span-unchecked
 KEY_A_SWAP = "archive-index:chunk-ref-redirected-valid-crc"
 KEY_A_ITER = "archive-index:iterate-address-from-corrupt-index"
 KEY_SWAP = "table-file:record-replaced-valid-crc"
@@ -605,9 +605,6 @@ def attribute(case, out, kind, msg):
         return None
     if is_archive and kind == "misread":
         return KEY_A_SWAP if msg == "get" else KEY_A_ITER
-    if is_archive and kind == "panic" and msg.startswith("getmany:") and any(
-            x in msg for x in ("out of memory", "makeslice", "expected true", "slice bounds out of range", "cannot allocate")):
-        return KEY_A_GM
     return None
 
 
@@ -650,8 +647,8 @@ def classify(case, out):
         t.append("a-iter-" + o["iter"])
         if 3 in (o.get("extra") or []):
             t.append("a-extras-crash")
-        if o["getmany"] == "crash":
-            t.append("a-gm-crash")
+        if o["getmany"] in ("crash", "err", "ok"):
+            t.append("a-gm-" + o["getmany"])
         for kind, msg in evidence(case, out):
             t.append("finding:" + (attribute(case, out, kind, msg) or "UNATTRIBUTED"))
     elif k == "store":
